@@ -312,9 +312,7 @@ def triggers_of(program: dict, facts: dict[str, dict]) -> dict[str, list[str]]:
             _walk(st, lambda d: found.append(1) if d.get("fn") in ("sum", "cum_sum") and d.get("args") and isinstance(d["args"][0], dict)
                   and ("fn" in d["args"][0] or "case" in d["args"][0]) else None)
             if found:
-                hit("D53", sid)
-        if "str_slice" in ops:
-            hit("D54", sid)
+                hit("D53", sid)     # (repaired: no finding of this name is listed any more; kept for the history of the replays)
         if op == "group_by" and st.get("add") and f.get("grouped"):
             hit("D43", sid)
         if op == "ungroup" and f.get("grouped") and f.get("summarized_group"):
